@@ -93,11 +93,8 @@ func setSig(ts []maptile.Tile) uint64 {
 
 // checkMerged verifies the merge invariants; strict = MergeUp semantics (area preserved, no complete quad left).
 func checkMerged(in []maptile.Tile, zmax, min maptile.Zoom, out maptile.Set, strict bool) string {
-	ts := sortedTiles(out, false)
+	ts := sortedTiles(out, true) // (a key marked false is not in the set)
 	for _, t := range ts {
-		if !out[t] {
-			return fmt.Sprintf("output holds %v marked false", t)
-		}
 		if t.Z < min {
 			return fmt.Sprintf("output tile %v is shallower than the requested zoom %d", t, min)
 		}
@@ -237,6 +234,17 @@ func drawSetSized(t *core.T, big bool) (set maptile.Set, z maptile.Zoom, class s
 func RunMerge(t *core.T) {
 	s := t.Src
 	set, z, class := drawSet(t)
+	if s.Chance(1, 6, "false-entries") {
+		// tiles the caller took out of the set by marking them false instead of deleting the key:
+		// not part of the cover (holes in otherwise complete quads included)
+		class += "+false"
+		keys := sortedTiles(set, true)
+		for _, tl := range keys {
+			if s.Chance(1, 6, "unmark") {
+				set[tl] = false
+			}
+		}
+	}
 	in := sortedTiles(set, true)
 	min := maptile.Zoom(0)
 	if z > 0 {
@@ -321,7 +329,7 @@ func RunMerge(t *core.T) {
 		if out == nil {
 			return
 		}
-		res := sortedTiles(out, false)
+		res := sortedTiles(out, true)
 		t.Logf("behaviour %s -> %d tiles (sig %016x)", desc, len(res), setSig(res))
 		if msg := checkMerged(in, z, min, out, !partial || count == 4); msg != "" {
 			t.Violate("merge-invariant", api, "", "%s of %d zoom-%d tiles to min %d (count %d) under %s: %s\n  input: %v\n  output: %v", api, len(in), z, min, count, desc, msg, head(in, 40), head(res, 40))
@@ -531,7 +539,54 @@ func drawShape(s *core.Source, z maptile.Zoom, areaOnly bool) *shape {
 			}
 			return orb.LineString(conv(ps))
 		}
-		switch s.Pick([]int{5, 2, 2}, "linekind") {
+		linekinds := []int{5, 2, 2, 0}
+		if z <= 12 {
+			linekinds[3] = 2
+		}
+		switch s.Pick(linekinds, "linekind") {
+		case 3:
+			// vertices exactly collinear and equally spaced in lon/lat (multiples of 1/8 degree): straight on a
+			// plate carree map, a curve in mercator space, so the middle vertices matter
+			sh.class = "lonlat-collinear-line/" + size
+			p0 := toLonLat(c, z)
+			snap := func(v float64) float64 { return math.Round(v*8) / 8 }
+			k := s.Range(3, 6, "k")
+			tile := 360 / n // degrees of longitude per tile
+			step := func(label string) float64 {
+				d := snap(r * tile * (0.2 + float64(s.Intn(100, label))/100) / float64(k-1))
+				if d < 0.125 {
+					d = 0.125
+				}
+				if s.Bool(label + "neg") {
+					d = -d
+				}
+				return d
+			}
+			dx, dy := step("dlon"), step("dlat")
+			x0, y0 := snap(p0[0]), snap(p0[1])
+			// stay inside lon (-179,179), lat (-84,84)
+			if x0+float64(k-1)*dx > 179 || x0+float64(k-1)*dx < -179 {
+				dx = -dx
+			}
+			if y0+float64(k-1)*dy > 84 || y0+float64(k-1)*dy < -84 {
+				dy = -dy
+			}
+			ls := orb.LineString{}
+			for i := 0; i < k; i++ {
+				ls = append(ls, orb.Point{x0 + float64(i)*dx, y0 + float64(i)*dy})
+			}
+			ok := true
+			for _, p := range ls {
+				if p[0] <= -179.5 || p[0] >= 179.5 || p[1] <= -84.5 || p[1] >= 84.5 {
+					ok = false
+				}
+			}
+			if !ok {
+				sh.class = "line/" + size
+				sh.geom = drawLine()
+			} else {
+				sh.geom = ls
+			}
 		case 0:
 			sh.geom = drawLine()
 		case 1:
@@ -612,6 +667,24 @@ func drawShape(s *core.Source, z maptile.Zoom, areaOnly bool) *shape {
 			sh.geom = drawPoly(c)[0]
 		case 2:
 			sh.class = "multipolygon/" + size
+			if !thin && s.Chance(1, 3, "island") {
+				// a lake with an island that almost fills it: the island's outline runs through tiles
+				// the lake shore has already marked, its inside does not
+				sh.class = "multipolygon-island/" + size
+				outer := star(s, c, r/2, r, s.Range(6, 12, "nv"), false)
+				shore := star(s, c, r/6, r/3, s.Range(6, 9, "nv"), false)
+				f := []float64{0.9, 0.97, 0.995, 0.9999}[s.Intn(4, "fill")]
+				island := make([]pt, len(shore))
+				for i, p := range shore {
+					island[i] = pt{c[0] + (p[0]-c[0])*f, c[1] + (p[1]-c[1])*f}
+				}
+				hole := append([]pt{}, shore...)
+				for i, j := 1, len(hole)-2; i < j; i, j = i+1, j-1 { // clockwise
+					hole[i], hole[j] = hole[j], hole[i]
+				}
+				sh.geom = orb.MultiPolygon{{orb.Ring(conv(outer)), orb.Ring(conv(hole))}, {orb.Ring(conv(island))}}
+				break
+			}
 			c2 := drawCenter(s, z, r)
 			sh.geom = orb.MultiPolygon{drawPoly(c), drawPoly(c2)}
 		default:
@@ -636,6 +709,16 @@ func drawShape(s *core.Source, z maptile.Zoom, areaOnly bool) *shape {
 			at := s.Intn(3, "at")
 			e := emptyGeoms[s.Intn(len(emptyGeoms), "which")]
 			col = append(col[:at], append(orb.Collection{e}, col[at:]...)...)
+		}
+		if s.Chance(1, 5, "manymembers") {
+			// a dozen direct members
+			s.Repeat(5, 8, 12, "member", func(int) {
+				m := drawShape(s, z, false)
+				if _, ok := m.geom.(orb.Collection); ok {
+					m.geom = orb.Point(toLonLat(c, z))
+				}
+				col = append(col, m.geom)
+			})
 		}
 		sh.geom = col
 	}
